@@ -373,3 +373,19 @@ def shape(eng, fn: FunctionInfo, e: ast.AST) -> str:
             return n
     return norm(Sub().visit(copy.deepcopy(e)))
 
+
+def as_less(e: ast.AST) -> Optional[Tuple[ast.AST, str, ast.AST]]:
+    """an ordering comparison oriented as (smaller side, '<' | '<=', larger side): `a > b` and `b < a` are one construct"""
+    if not (isinstance(e, ast.Compare) and len(e.ops) == 1):
+        return None
+    l, r, op = e.left, e.comparators[0], e.ops[0]
+    if isinstance(op, ast.Lt):
+        return (l, "<", r)
+    if isinstance(op, ast.LtE):
+        return (l, "<=", r)
+    if isinstance(op, ast.Gt):
+        return (r, "<", l)
+    if isinstance(op, ast.GtE):
+        return (r, "<=", l)
+    return None
+
